@@ -12,7 +12,8 @@ LEVEL = 'exploration'
 RULE = ('Echo: KEEPALIVE frames (respond flag 0/1, data 0-200 bytes, 63-bit position) sent by a raw peer to a real '
         'server and to a real client, interleaved with request traffic. Periodic / timeout: a real client with keep-alive '
         'period P and maximum lifetime L generated over 1 ms..60 s (including P > L and sub-second parts) against a raw '
-        'server whose acknowledgement pattern is a generated list of gaps: short gaps (<= 0.9 L) for which no timeout may '
+        'server whose KEEPALIVE pattern (acknowledgements without the respond flag, or keepalives of its own with it) is a '
+        'generated list of gaps: short gaps (<= 0.9 L) for which no timeout may '
         'be reported, optionally ended by silence (observed for >= 2.2 L) after which the timeout must have been '
         'reported. Oracle: every respond-flagged KEEPALIVE is answered by exactly one KEEPALIVE without the flag and with '
         'the same data, answers in request order, unflagged ones are never answered; the client\'s respond-flagged '
@@ -87,7 +88,10 @@ def timing_cases(draw):
     gaps = [draw(st.sampled_from([0.05, 0.3, 0.5, 0.8, 0.9])) for _ in range(ngaps)]
     silent = draw(st.booleans()) or ngaps == 0
     respond_acks = draw(st.booleans())
-    return {'echo': False, 'L': L, 'P': P, 'gaps': gaps, 'silent': silent, 'msg': draw(st.booleans())}
+    # what keeps arriving: acknowledgements of the client's own keepalives (no respond flag), or keepalives the server
+    # originates itself (respond flag set; the client must echo them, and they prove the server alive just as well)
+    return {'echo': False, 'L': L, 'P': P, 'gaps': gaps, 'silent': silent, 'msg': draw(st.booleans()),
+            'server_originated': respond_acks}
 
 
 def judge_timing(case):
@@ -100,7 +104,8 @@ def judge_timing(case):
     ops = [['tick', 3], ['mark', 'start']]
     for g in case['gaps']:
         ops.append(['adv', g * L])
-        ops.append(['rawframe', {'type': 'KEEPALIVE', 'sid': 0, 'respond': False, 'position': 0, 'data': b''}])
+        ops.append(['rawframe', {'type': 'KEEPALIVE', 'sid': 0, 'respond': bool(case.get('server_originated')), 'position': 0,
+                                 'data': b''}])
         ops.append(['tick', 2])
     ops.append(['mark', 'last_ack'])
     if case['silent']:
@@ -146,11 +151,16 @@ def judge_timing(case):
     expected = int((end_t - connect_t) / (P / 1000.0) + 1e-9)
     if abs(len(times) - expected) > 1:
         out.append(viol('keepalive_count_wrong', 'C15:count', P_ms=P, sent=len(times), expected=expected))
-    if any(not e['f'].get('respond') for e in tr.world.wire.get('c', []) if e['f']['type'] == 'KEEPALIVE'):
-        out.append(viol('unflagged_keepalive_answered', 'C15:answered_unflagged'))
+    echoes = sum(1 for e in tr.world.wire.get('c', []) if e['f']['type'] == 'KEEPALIVE' and not e['f'].get('respond'))
+    owed = len(case['gaps']) if case.get('server_originated') else 0
+    if echoes > owed:
+        out.append(viol('unflagged_keepalive_answered', 'C15:answered_unflagged', echoes=echoes, owed=owed))
+    elif echoes < owed and not timeouts:
+        out.append(viol('keepalive_not_echoed', 'C15:not_echoed:timing', echoes=echoes, owed=owed))
     for err in tr.loop_errors:
         out.append(viol('unhandled_exception', 'C15:loop_error:%s' % err.get('type'), **err))
     return out, case['silent'], ['part=timing', 'silent_end=%s' % case['silent'], 'P>L=%s' % (case['P'] > case['L']),
+                                 'arriving=%s' % ('server_keepalives' if case.get('server_originated') else 'acknowledgements'),
                                  'gaps=%d' % len(case['gaps'])]
 
 
